@@ -220,7 +220,46 @@ def _cal_expr_domain(prog: Program, fn: FunctionInfo, v: ast.AST, date: str, yr:
             q = t.fn
             vals = sorted({_fold_fn(q, m) for m in range(1, 13)})
             return ("ints", vals[0], vals[-1]), "quarter_from_month(date.month)"
+    tab = month_table(prog, fn, v, date)
+    if tab is not None:
+        return ("ints", min(tab), max(tab)), f"arithmetic on date.month: {sorted(set(tab))}"
     raise AnalysisError(f"{fn.fq}: calendar field expression not enumerated: {txt}")
+
+
+def month_table(prog: Program, fn: FunctionInfo, e: ast.AST, date: str) -> T.Optional[T.List[int]]:
+    """Value of an arithmetic expression over `<date>.month` (possibly through a one-parameter arithmetic helper such
+    as quarter_from_month) for month = 1..12; None if the expression is something else."""
+    import copy
+    MONTH = "__month__"
+
+    class Sub(ast.NodeTransformer):
+        def visit_Attribute(self, node: ast.Attribute) -> ast.AST:
+            if unparse(node) == f"{date}.month":
+                return ast.Name(id=MONTH, ctx=ast.Load())
+            return self.generic_visit(node)
+    e2 = Sub().visit(copy.deepcopy(e))
+    if MONTH not in {n.id for n in ast.walk(e2) if isinstance(n, ast.Name)}:
+        return None
+
+    def ev(x: ast.AST, env: T.Dict[str, int]) -> int:
+        if isinstance(x, ast.Call) and len(x.args) == 1 and not x.keywords:
+            if unparse(x.func) == "int":
+                return ev(x.args[0], env)
+            t = prog.resolve_call(fn, x, count=False)
+            if t.fn is not None and len(t.fn.params) == 1:
+                return _fold_fn(t.fn, ev(x.args[0], env))
+            raise AnalysisError("call")
+        if isinstance(x, ast.BinOp):
+            import operator
+            ops = {ast.Add: operator.add, ast.Sub: operator.sub, ast.Mult: operator.mul, ast.FloorDiv: operator.floordiv, ast.Mod: operator.mod}
+            if type(x.op) not in ops:
+                raise AnalysisError("op")
+            return ops[type(x.op)](ev(x.left, env), ev(x.right, env))
+        return _fold_arith(x, env)
+    try:
+        return [ev(e2, {MONTH: m}) for m in range(1, 13)]
+    except (AnalysisError, ZeroDivisionError, TypeError):
+        return None
 
 
 def _fold_fn(q: FunctionInfo, arg: int) -> int:
